@@ -45,8 +45,8 @@ ITEMS = ["x", "1", "+", "G", "y", "#x", "x##y", "x##1", "__VA_ARGS__", "H",
          "1##x", "#__VA_ARGS__", "F", "(", ")", ",", "F(x)", "y##__VA_ARGS__"]
 GDEFS = [("G", "F"), ("G", "1"), ("G(y)", "F(y)"), ("G", "H"), ("G", "F(H)"), ("G", "G"), ("G(y)", "y H"), ("G", "x"), ("G(y)", "y")]
 HDEFS = [("H", "2"), ("H", "G"), ("H", "x##1 F")]
-INVS = ["F(1)", "F(1,2)", "F()", "F(G)", "F(F(1))", "F(1)(2)", "F (1,2,3)", "F", "G", "G(3)", "H(F)(1)", "F((1,2),3)",
-        "F(,)", "F(H,G)", "F(F)(2)", "F(a b, c)", 'F("s")', "F(G(3))", "G(F)(1)", "H", "F(1,G(2),H)"]
+INVS = ["F(1)", "F(1,2)", "F()", "F(G)", "F(F(1))", "F(1)(2)", "F (1,2,3)", "F", "F(H,G)", "G(3)", "H(F)(1)", "F((1,2),3)",
+        "F(,)", "G", "F(F)(2)", "F(a b, c)", 'F("s")', "F(G(3))", "G(F)(1)", "H", "F(1,G(2),H)"]
 
 
 def _lex_body(text):
